@@ -36,6 +36,7 @@ def check(ctx):
     ctx.rule("R5", "specs resolve binaries only through locate_executable", floor=2)
     ctx.rule("R7", "the validation stamp of a cached directory listing is read before the directory is listed", floor=1)
     ctx.rule("R8", "between the user's word and the file that is inspected and executed, an explicit path is never normalised lexically (abspath/normpath collapse `dir/..` without asking the file system: with a symlinked dir that is another file)", floor=2)
+    ctx.rule("R9", "a command is an executable *regular file* in every view: wherever the executable test is asked to skip its own regular-file check (check_file_exist=False), the same path is already known to be a file at that point (`not is_file(p) or ...`), and every name a directory listing yields has passed the executable test (a symlink to a directory has the x bit too)", floor=4)
     ctx.rule("R6", "no memoisation of file-system facts on the lookup path beyond the documented caches (mtime-keyed directory listings, opt-in read-once directories)", floor=2)
 
     ex = ctx.repo.module(EX)
@@ -369,7 +370,67 @@ def check(ctx):
         raise AnalysisError(f"only {n8} functions scanned on the launch path")
     ctx.ob("R8", f"{SP}+{EX}", f"no lexical path normalisation in the {n8} functions of the launch path", True, key="launch-path|scanned")
     ctx.ob("R8", f"{SP}:get_script_subproc_command", "script detection hands the interpreter the path it was given", True, key="launch-path|script-detection") if ctx.repo.module(SP).has("get_script_subproc_command") else None
+    _regular_file_everywhere(ctx)
 
+
+def _regular_file_everywhere(ctx):
+    PRED = ("is_executable", "is_executable_in_posix", "is_executable_in_windows")
+    FILE_EVIDENCE = ("is_file", "os.path.isfile", "isfile")
+    n = 0
+    for rel in (EX, CC):
+        mod = ctx.repo.module(rel)
+        for q, fn in mod.functions():
+            if q in PRED:
+                continue
+            cfg = None
+            for c in calls_in(fn):
+                nm = (call_name(c) or "").split(".")[-1]
+                if nm not in PRED or not c.args:
+                    continue
+                sw = kwarg(c, "check_file_exist") or (c.args[1] if len(c.args) > 1 else None)
+                if sw is None or const_value(sw, None) is True:
+                    n += 1
+                    ctx.ob("R9", f"{rel}:{q}", f"`{short(c, 60)}` keeps the predicate's own regular-file check", True, key=f"{q}|file-check-kept", where=loc(c))
+                    continue
+                x = unparse(c.args[0])
+
+                def is_file_of(e, x=x):
+                    return (isinstance(e, ast.Call) and (call_name(e) or "") in FILE_EVIDENCE and e.args and unparse(e.args[0]) == x) or (isinstance(e, ast.Call) and isinstance(e.func, ast.Attribute) and e.func.attr == "is_file" and unparse(e.func.value) == x and not any(k.arg == "follow_symlinks" and const_value(k.value, True) is False for k in e.keywords))
+
+                ok = False
+                child = c
+                for a in ancestors(c):
+                    if isinstance(a, ast.BoolOp):
+                        idx = next((i for i, v in enumerate(a.values) if v is child or any(y is child for y in ast.walk(v))), None)
+                        left = a.values[:idx] if idx is not None else []
+                        if isinstance(a.op, ast.Or) and any(isinstance(v, ast.UnaryOp) and isinstance(v.op, ast.Not) and is_file_of(v.operand) for v in left):
+                            ok = True
+                        if isinstance(a.op, ast.And) and any(is_file_of(v) for v in left):
+                            ok = True
+                    if isinstance(a, ast.stmt):
+                        break
+                    child = a
+                if not ok:
+                    cfg = cfg or CFG(fn)
+                    for nd in cfg.nodes_of(stmt_of(c)):
+                        for e, pol in facts_at(cfg, nd):
+                            if pol and is_file_of(e):
+                                ok = True
+                n += 1
+                ctx.ob("R9", f"{rel}:{q}", f"`{short(c, 60)}` skips the regular-file check only where `{x}` is already known to be a file", ok, key=f"{q}|file-check-skipped-without-evidence", where=loc(c))
+    # listings: what is yielded / collected passed the predicate
+    cm = ctx.repo.module(CC)
+    for q in ("_yield_accessible_unix_file_names",):
+        fn = cm.func(q)
+        cfg = CFG(fn)
+        ys = [nd for nd in cfg.nodes if nd.kind == "stmt" and any(isinstance(y, (ast.Yield, ast.YieldFrom)) for y in ast.walk(nd.ast))]
+        if not ys:
+            raise AnalysisError(f"{CC}:{q}: no yield")
+        for nd in ys:
+            facts = facts_at(cfg, nd)
+            ok = any(pol and isinstance(e, ast.Call) and (call_name(e) or "").split(".")[-1] in PRED for e, pol in facts)
+            n += 1
+            ctx.ob("R9", f"{CC}:{q}", f"`{short(nd.ast, 40)}`: a listed name has passed the executable test", ok, key=f"{q}|listed-without-test", where=loc(nd.ast))
 
 META = {
     "technique": "static analysis: CFG guard facts on the explicit-path split, reverse/overwrite parity, dominance of cache refresh before reads, memo-input completeness of the rebuild condition, who-may-resolve",
